@@ -1,6 +1,16 @@
 /-
   Props/C03.lean — C03: a step's position map describes exactly what the step did to the document.
-  Token-level semantics of the steps: Proofs/StepToks.lean.  Helper lemmas: Proofs/StepMap.lean.
+  Token-level semantics of the steps: Proofs/StepToks.lean.  Helper lemmas: Proofs/StepMap.lean,
+  Proofs/StepMapLeft.lean (either association side, closed forms), Proofs/StepMapHist.lean (the
+  `deleted` flag read off the ranges, the two sides compared, `Mapping._map` as the folds of
+  PM/MapFold.lean).
+
+  Layout: single steps, right side (`assoc = 1`) → every step kind → whole histories (`Tr.run`) →
+  the other side (`assoc = -1`) for single steps, every step kind, whole histories → the `deleted`
+  flag of `map_result` (one map, one step, a mapping, a transform) → monotonicity → the side
+  conditions as executable guards and for the steps lift / wrap / set_node_markup build → size delta
+  and "a surviving token keeps width one" → histories as such (`Hist`: hypotheses on the recorded
+  steps only) → a concrete two-step history.
 -/
 import PM.Step
 import PM.Transform
@@ -1346,6 +1356,124 @@ example : let m : StepMap := ⟨[(3, 0, 1), (3, 0, 1)], false⟩
   intro r hr
   simp only [List.mem_cons, List.not_mem_nil, or_false] at hr
   rcases hr with rfl | rfl <;> simp
+
+/-! ### histories as such: hypotheses on the recorded steps only -/
+
+/-- a history: steps applied one after the other, each successfully -/
+inductive Hist (S : Schema) : Node → List Step → Node → Prop
+  | nil (d : Node) : Hist S d [] d
+  | cons {d d1 d' : Node} {st : Step} {sts : List Step} :
+      S.apply st d = .ok d1 → Hist S d1 sts d' → Hist S d (st :: sts) d'
+
+/-- what a transform records over any list of attempted steps is a history from its document -/
+theorem run_hist (S : Schema) : ∀ (sts : List Step) (tr : Tr),
+    ∃ new : List Step, (tr.run S sts).steps = tr.steps ++ new ∧
+      (tr.run S sts).maps = tr.maps ++ new.map Step.getMap ∧ Hist S tr.doc new (tr.run S sts).doc
+  | [], tr => ⟨[], by simp [Tr.run], by simp [Tr.run], by simpa [Tr.run] using Hist.nil tr.doc⟩
+  | st :: sts, tr => by
+    have hrun : tr.run S (st :: sts) = (tr.maybeStep S st).run S sts := by simp [Tr.run]
+    rw [hrun]
+    cases happ : S.apply st tr.doc with
+    | error e =>
+      have : tr.maybeStep S st = tr := by simp [Tr.maybeStep, happ]
+      rw [this]
+      exact run_hist S sts tr
+    | ok d1 =>
+      have h1 : tr.maybeStep S st = tr.addStep st d1 := by simp [Tr.maybeStep, happ]
+      rw [h1]
+      obtain ⟨new, e1, e2, e3⟩ := run_hist S sts (tr.addStep st d1)
+      exact ⟨st :: new, by simpa [Tr.addStep] using e1, by simpa [Tr.addStep] using e2,
+        Hist.cons happ (by simpa [Tr.addStep] using e3)⟩
+
+/-- **any history, right side**: side conditions asked of the history's own steps only -/
+theorem hist_same_after (S : Schema) {d d' : Node} {steps : List Step} (h : Hist S d steps d')
+    (hok : ∀ st ∈ steps, AroundOK st) (p : Nat) (hp : p ≤ fsize d.kids)
+    (hout : OutsideAll (steps.map Step.getMap) p) :
+    SameAfter d d' steps p (mapFold (steps.map Step.getMap) 1 p) := by
+  induction h generalizing p with
+  | nil d =>
+    simp only [List.map_nil, mapFold_nil, SameAfter, Int.toNat_natCast]
+    exact ⟨Int.natCast_nonneg _, hp, trivial, fun _ => trivial⟩
+  | @cons d d1 d' st sts happ _ ih =>
+    simp only [List.map_cons, OutsideAll] at hout
+    obtain ⟨ho1, ho2⟩ := hout
+    obtain ⟨s1, s2, s3, s4⟩ := mapped_position_every_step S d d1 st (hok st List.mem_cons_self) happ p hp ho1
+    have hq : ((st.getMap.map p 1).toNat : Int) = st.getMap.map p 1 := Int.toNat_of_nonneg s1
+    have ih' := ih (fun s hs => hok s (List.mem_cons_of_mem _ hs)) (st.getMap.map p 1).toNat s2
+      (by rw [hq]; exact ho2)
+    rw [hq] at ih'
+    obtain ⟨i1, i2, i3, i4⟩ := ih'
+    rw [List.map_cons, mapFold_cons]
+    refine ⟨i1, i2, i3.trans s3, fun hall => ?_⟩
+    exact (i4 (fun s hs => hall s (List.mem_cons_of_mem _ hs))).trans (s4 (hall st List.mem_cons_self))
+
+/-- **any history, left side** -/
+theorem hist_same_before (S : Schema) {d d' : Node} {steps : List Step} (h : Hist S d steps d')
+    (hok : ∀ st ∈ steps, AroundWF st) (p : Nat) (hp0 : 0 < p) (hp : p ≤ fsize d.kids)
+    (hout : OutsideAllL (steps.map Step.getMap) p) :
+    SameBefore d d' steps p (mapFold (steps.map Step.getMap) (-1) p) := by
+  induction h generalizing p with
+  | nil d =>
+    simp only [List.map_nil, mapFold_nil, SameBefore, Int.toNat_natCast]
+    exact ⟨by omega, hp, trivial, fun _ => trivial⟩
+  | @cons d d1 d' st sts happ _ ih =>
+    simp only [List.map_cons, OutsideAllL] at hout
+    obtain ⟨ho1, ho2⟩ := hout
+    obtain ⟨s1, s2, s3, s4⟩ := mapped_position_every_step_left S d d1 st (hok st List.mem_cons_self) happ
+      p hp0 hp ho1
+    have hq : ((st.getMap.map p (-1)).toNat : Int) = st.getMap.map p (-1) := Int.toNat_of_nonneg (by omega)
+    have ih' := ih (fun s hs => hok s (List.mem_cons_of_mem _ hs)) (st.getMap.map p (-1)).toNat (by omega) s2
+      (by rw [hq]; exact ho2)
+    rw [hq] at ih'
+    obtain ⟨i1, i2, i3, i4⟩ := ih'
+    rw [List.map_cons, mapFold_cons]
+    refine ⟨i1, i2, i3.trans s3, fun hall => ?_⟩
+    exact (i4 (fun s hs => hall s (List.mem_cons_of_mem _ hs))).trans (s4 (hall st List.mem_cons_self))
+
+/-- the maps of a history are stored and sorted, and its size delta is the sum of the maps' deltas -/
+theorem hist_maps_wf_delta (S : Schema) {d d' : Node} {steps : List Step} (h : Hist S d steps d')
+    (hok : ∀ st ∈ steps, AroundWF st) :
+    (∀ m ∈ steps.map Step.getMap, m.inverted = false ∧ C08.WF 0 m.ranges) ∧
+    (fsize d'.kids : Int) - fsize d.kids = mapDeltaAll (steps.map Step.getMap) := by
+  induction h with
+  | nil d => exact ⟨by simp, by simp [mapDeltaAll]⟩
+  | @cons d d1 d' st sts happ _ ih =>
+    obtain ⟨i1, i2⟩ := ih (fun s hs => hok s (List.mem_cons_of_mem _ hs))
+    have hd := size_delta_every_step S d d1 st (hok st List.mem_cons_self) happ
+    refine ⟨?_, ?_⟩
+    · intro m hm
+      simp only [List.map_cons, List.mem_cons] at hm
+      rcases hm with rfl | hm
+      · exact step_map_wf S d d1 st (hok st List.mem_cons_self) happ
+      · exact i1 m hm
+    · simp only [mapDeltaAll, List.map_cons, List.sum_cons] at i2 ⊢
+      omega
+
+/-- **Transform level, both sides, side conditions on the recorded steps only** (an attempted step
+    that did not apply is asked nothing): the same-content statements of
+    `transform_mapped_position_same_content` and `…_left` -/
+theorem transform_same_content_recorded (S : Schema) (doc : Node) (sts : List Step) :
+    let tr := (Tr.init doc).run S sts
+    ((∀ st ∈ tr.steps, AroundOK st) → ∀ p : Nat, p ≤ fsize doc.kids → OutsideAll tr.maps p →
+      (Mapping.ofMaps tr.maps).map p 1 = some (mapFold tr.maps 1 p) ∧
+      SameAfter doc tr.doc tr.steps p (mapFold tr.maps 1 p)) ∧
+    ((∀ st ∈ tr.steps, AroundWF st) → ∀ p : Nat, 0 < p → p ≤ fsize doc.kids → OutsideAllL tr.maps p →
+      (Mapping.ofMaps tr.maps).map p (-1) = some (mapFold tr.maps (-1) p) ∧
+      SameBefore doc tr.doc tr.steps p (mapFold tr.maps (-1) p)) := by
+  intro tr
+  obtain ⟨new, e1, e2, e3⟩ := run_hist S sts (Tr.init doc)
+  replace e1 : tr.steps = new := by
+    show ((Tr.init doc).run S sts).steps = new
+    simpa [Tr.init] using e1
+  replace e2 : tr.maps = new.map Step.getMap := by
+    show ((Tr.init doc).run S sts).maps = new.map Step.getMap
+    simpa [Tr.init] using e2
+  replace e3 : Hist S doc new tr.doc := by
+    show Hist S doc new ((Tr.init doc).run S sts).doc
+    simpa [Tr.init] using e3
+  rw [e1, e2]
+  exact ⟨fun hok p hp hout => ⟨mapping_map_eq_mapFold _ p 1, hist_same_after S e3 hok p hp hout⟩,
+    fun hok p hp0 hp hout => ⟨mapping_map_eq_mapFold _ p (-1), hist_same_before S e3 hok p hp0 hp hout⟩⟩
 
 /-! a concrete two-step history through `Tr.run`: the hypotheses of the Transform-level theorems hold
     and the two sides differ -/
